@@ -1,28 +1,84 @@
 (* C28 — PromQL expressions print to text that parses back to the same expression.
-   Only the property theorems (closed by [exact]) and non-vacuity examples. *)
+   Only the property theorems (closed by [exact]) and non-vacuity examples.
+
+   Model: PromParse.Lexer (lex.go + number/duration/string conversion), PromParse.Parser (grammar of parse.y as a
+   precedence-climbing parser + the actions of parse.go), PromParse.Printer (printer.go; DUAL: [print false] = the
+   source as it is, [print true] = repaired), PromParse.Wf ([wf] = shape of the trees the parser produces,
+   [norm] = the tree with matchers in printing order). [rx] = which regex matcher values compile (foreign code). *)
 From Coq Require Import ZArith List Bool String.
-From SH Require Import PromParse.Syntax Gen.PromParse PromParse.Lexer PromParse.Parser PromParse.Printer PromParse.Refuted.
+From SH Require Import PromParse.Syntax Gen.PromParse PromParse.Lexer PromParse.Parser PromParse.Printer PromParse.Wf
+  PromParse.Proofs PromParse.Refuted.
+Import ListNotations.
 Open Scope string_scope.
 
-(* "For every expression the parser accepts, printing it and parsing the printed text yields an equivalent
-   syntax tree (… ranges, offsets and StatsHouse extensions)" — REFUTED for the printer as it is in the source
-   ([print false], the faithful variant of the dual model); every witness is replayed on the real code. *)
+(* "For every expression the parser accepts, printing it and parsing the printed text yields an equivalent syntax
+   tree (same operators, operands, grouping, matchers, ranges, offsets and StatsHouse extensions)".
+   PARTIAL in three respects, each covered by the correspondence run instead of a proof:
+   (1) token level: the theorem is about the token sequence [toks e] of the printed text; that the printed text
+       lexes to exactly these tokens is checked by computation on every accepted case ([lex (print true e) = Some (toks e)]);
+   (2) "the parser accepts" is replaced by [wf], which every tree returned by ParseExpr and by the model parser is
+       checked to satisfy on every case;
+   (3) it is about the REPAIRED printer ([print true]); for the printer in the source see the _refuted theorems.
+   Full grammar: literals, parentheses, unary/binary operators with bool/on/ignoring/group_left/group_right,
+   selectors with matchers (incl. @what-style and bind matchers), ranges, @, offset, offset lists, subqueries,
+   calls, aggregations with by/without and parameters. *)
+Theorem C28_parse_print_tokens_partial :
+  forall rx e, wf rx e = true -> ptop rx (toks e) = Some (norm e).
+Proof. exact ptop_toks. Qed.
 
-(* F-C28a: an instant selector's offset is printed without a unit *)
+Theorem C28_parse_print_partial :
+  forall rx e, wf rx e = true -> lex (print true e) = Some (toks e) -> parse rx (print true e) = Some (norm e).
+Proof. exact parse_print. Qed.
+
+(* printing is injective up to normalisation: two well-formed trees with the same printed text are equivalent *)
+Theorem C28_print_injective_on_norm_partial :
+  forall rx e1 e2, wf rx e1 = true -> wf rx e2 = true ->
+  lex (print true e1) = Some (toks e1) -> lex (print true e2) = Some (toks e2) ->
+  print true e1 = print true e2 -> norm e1 = norm e2.
+Proof. exact print_injective_on_norm. Qed.
+
+(* REFUTED for the printer as it is in the source ([print false], the faithful variant of the dual model); every
+   witness is replayed on the real ParseExpr/String by the harness each run (findings F-C28a..f), and the repaired
+   variant round-trips on the same witness. *)
+
+(* F-C28a: "…offsets": an instant selector's offset is printed without a unit *)
 Theorem C28_roundtrip_vector_offset_refuted : breaks false "foo offset 5m".
 Proof. exact vector_offset_breaks. Qed.
-(* F-C28b: a subquery's range/step are printed without units *)
+(* F-C28b: "…ranges": a subquery's range/step are printed without units *)
 Theorem C28_roundtrip_subquery_refuted : breaks false "rate(foo[5m])[10m:1m]".
 Proof. exact subquery_breaks. Qed.
-(* F-C28c: the StatsHouse offset list is not printed at all *)
+(* F-C28c: "…StatsHouse extensions": the offset list is not printed at all *)
 Theorem C28_roundtrip_offset_list_refuted : breaks false "foo offset [1m, 2m]".
 Proof. exact offset_list_breaks. Qed.
-(* F-C28d: group_left/group_right after an empty ignoring() is not printed *)
+(* F-C28d: "…grouping": group_left/group_right after an empty ignoring() is not printed *)
 Theorem C28_roundtrip_group_modifier_refuted : breaks false "a + ignoring() group_left(x) b".
 Proof. exact group_modifier_breaks. Qed.
-(* F-C28e: a range that rounds to zero seconds prints as 0s *)
+(* F-C28e: "…ranges": a range that rounds to zero seconds prints as 0s, which is rejected *)
 Theorem C28_roundtrip_zero_range_refuted : breaks false "foo[0s499ms]".
 Proof. exact zero_range_breaks. Qed.
-(* F-C28f: a selector without name and printable matchers prints as the empty string *)
+(* F-C28f: "…matchers": a selector without name and printable matchers prints as the empty string *)
 Theorem C28_roundtrip_empty_selector_refuted : breaks false "{}".
 Proof. exact empty_selector_breaks. Qed.
+
+(* F-C28g: "…operands": the literal +Inf is printed with its sign, which is parsed back as a unary operator over
+   the whole power expression / subquery it starts *)
+Theorem C28_roundtrip_pos_inf_refuted : breaks false "Inf ^ 2".
+Proof. exact pos_inf_breaks. Qed.
+
+(* the repaired printer on the same witnesses *)
+Theorem C28_repaired_on_witnesses :
+  holds true "foo offset 5m" /\ holds true "rate(foo[5m])[10m:1m]" /\ holds true "foo offset [1m, 2m]" /\
+  holds true "a + ignoring() group_left(x) b" /\ holds true "foo[0s499ms]" /\ holds true "{}" /\ holds true "Inf ^ 2".
+Proof.
+  exact (conj vector_offset_repaired (conj subquery_repaired (conj offset_list_repaired
+        (conj group_modifier_repaired (conj zero_range_repaired (conj empty_selector_repaired pos_inf_repaired)))))).
+Qed.
+
+(* non-vacuity: a tree using most of the grammar is well-formed, its printed text lexes to [toks], and the
+   conclusion is not trivial (normalisation reorders the matchers) *)
+Definition sample : string :=
+  "sum without (job, by) (rate(http_requests_total{job=~""api.*"",@what=""count"",env!=""dev""}[5m] offset -1h @ 1700000000.5)) / on (instance) group_left (x) -topk(3, (a + b) ^ 2 ^ c[10m:1m] offset [1m, 2m]) or sum:x{a:$v} @ end() > bool 1.5e+06".
+Example C28_nonvacuous_sample :
+  exists e, parse rx_all sample = Some e /\ wf rx_all e = true /\ lex (print true e) = Some (toks e) /\
+            parse rx_all (print true e) = Some (norm e) /\ norm e <> e.
+Proof. eexists. split; [vm_compute; reflexivity|]. split; [vm_compute; reflexivity|]. split; [vm_compute; reflexivity|]. split; [vm_compute; reflexivity|]. vm_compute. congruence. Qed.
